@@ -17,22 +17,43 @@ ASSUMES = ["ruleset well-formed (wf): group probabilities in [0,1], listed non-i
 
 FLAGSETS = [(False, False, "Grammar"), (True, False, "Grammar"), (False, True, "Grammar"),
             (True, True, "Grammar"), (False, False, "Prince"), (False, True, "Prince")]
+# the family built for the guess level: mostly with the capitalisation masks in force
+FAM_FLAGSETS = [(False, False, "Grammar")] * 4 + [(True, False, "Grammar")] * 3 + [(False, False, "Prince")] * 2 + [(False, True, "Grammar")]
+REPLAY_GUESS_CAP = 300000
 
 
 def explore(ctx, which):
     n = ctx.scale(150, 2500)
+    # C02 only: the GUESS level (guess_level.py) - for every ruleset whose files define at most guess_cap derivations every popped
+    # pre-terminal is expanded by the real create_guesses and the multiset of all guesses of the run is compared with the derivations
+    # of the files; and n_fam further SMALL rulesets built for that level (letters without case under a U, no all-lower mask, duplicate
+    # base-structure lines), drawn after the others so that those are the ones that were always drawn
+    n_fam = ctx.scale(120, 1500) if which == "C02" else 0
+    guess_cap = ctx.scale(3000, 12000) if which == "C02" else 0
+    expansions = []
     sc = common.scratch()
     cases, samples, vio = [], [], []
     seen, nontrivial = set(), 0
     dist = {"rulesets": 0, "preterminals": 0, "with_ties": 0, "repeated_type": 0, "single_group_var": 0,
             "capped": 0, "load_rejected": 0, "flags": {}}
-    for k in range(n):
-        rs = (rulesets.gen_near_tie_ruleset(ctx.rng) if k % 10 == 3 else rulesets.gen_close_lines_ruleset(ctx.rng) if k % 10 == 7
-              else rulesets.gen_ruleset(ctx.rng))
-        sb, scs, folder = ctx.rng.choice(FLAGSETS)
+    for k in range(n + n_fam):
+        fam = k >= n
+        if fam:
+            import guess_level
+            rs = guess_level.gen_caseless_ruleset(ctx.rng)
+            sb, scs, folder = ctx.rng.choice(FAM_FLAGSETS)
+            tr = guess_level.traits(rs, scs)
+            dist["caseless_family"] = dist.get("caseless_family", 0) + 1
+            dist["caseless_family_caseless_letter_under_U"] = dist.get("caseless_family_caseless_letter_under_U", 0) + tr[0]
+            dist["caseless_family_no_all_lower_mask"] = dist.get("caseless_family_no_all_lower_mask", 0) + tr[1]
+            dist["caseless_family_duplicate_base_line"] = dist.get("caseless_family_duplicate_base_line", 0) + tr[2]
+        else:
+            rs = (rulesets.gen_near_tie_ruleset(ctx.rng) if k % 10 == 3 else rulesets.gen_close_lines_ruleset(ctx.rng) if k % 10 == 7
+                  else rulesets.gen_ruleset(ctx.rng))
+            sb, scs, folder = ctx.rng.choice(FLAGSETS)
         qsize = [None, None, 2, 6, 16][k % 5]
-        dist["near_tie_family"] = dist.get("near_tie_family", 0) + (k % 10 == 3)
-        dist["close_adjacent_lines_family"] = dist.get("close_adjacent_lines_family", 0) + (k % 10 == 7)
+        dist["near_tie_family"] = dist.get("near_tie_family", 0) + (k % 10 == 3 and not fam)
+        dist["close_adjacent_lines_family"] = dist.get("close_adjacent_lines_family", 0) + (k % 10 == 7 and not fam)
         dist["small_max_queue_size"] = dist.get("small_max_queue_size", 0) + (qsize is not None)
         try:
             g = impl_next.load_grammar(rs, sc, sb, scs, folder)
@@ -69,7 +90,7 @@ def explore(ctx, which):
             seen.add(canon)
             if ties or rep or single:
                 nontrivial += 1
-        vio += oracle(which, g, items, problems, replay)
+        vio += oracle(which, g, items, problems, replay, guess_cap, dist, expansions)
         # determinism inside one process: a second queue gives the identical sequence
         items2, _, _, _ = impl_next.full_stream(g, cap=len(items) + 5, check_heap=False)
         if [impl_next.key(i) for i in items2] != [impl_next.key(i) for i in items]:
@@ -81,7 +102,7 @@ def explore(ctx, which):
                             "first": [(i["pt"], i["prob"]) for i in items[:4]], "n": len(items)})
         # "same directory, later load": for every fifth ruleset (thorough: every third) the life of the directory goes on
         if k % ctx.scale(5, 3) == 1:
-            vio += history_run(ctx, which, rs, (sb, scs, folder), sc, dist)
+            vio += history_run(ctx, which, rs, (sb, scs, folder), sc, dist, guess_cap=guess_cap)
     # correspondence: shards of <= 40 rulesets
     shards = []
     per = 25
@@ -94,9 +115,16 @@ def explore(ctx, which):
         src.append("].")
         src.append("Eval vm_compute in (failing (fun c => check_run (fst c) (snd c)) cases).")
         shards.append(("s%04d" % (s // per), "\n".join(src)))
+    # C02: the expansions of the guess level also go to the Coq expansion model (Expand.v, as in the C04 shards)
+    xshards = []
+    if expansions:
+        import guess_level
+        xshards = guess_level.expand_shards(expansions, ctx.scale(900, 8000))
+        dist["guess_level_preterminals_in_expand_model"] = sum(len(t) for _, _, t in xshards)
     corr = []
-    results = common.run_case_shards(which, shards)
-    for (name, idx, log), s in zip(results, range(0, len(cases), per)):
+    results = dict((name, (idx, log)) for name, idx, log in common.run_case_shards(which, shards + [(nm, src) for nm, src, _ in xshards]))
+    for (name, _), s in zip(shards, range(0, len(cases), per)):
+        idx, log = results.get(name, (None, "shard was not run"))
         if idx is None:
             corr.append(("next-run:" + name, False, log[-800:]))
         elif idx:
@@ -104,6 +132,15 @@ def explore(ctx, which):
                          % (idx, json.dumps(cases[s + idx[0]][2])[:600])))
         else:
             corr.append(("next-run:" + name, True, ""))
+    for name, _, texts in xshards:
+        idx, log = results.get(name, (None, "shard was not run"))
+        if idx is None:
+            corr.append(("expand-guesses:" + name, False, log[-800:]))
+        elif idx:
+            corr.append(("expand-guesses:" + name, False, "Expand.v and create_guesses differ on %d emitted pre-terminals; first (loaded groups): %s"
+                         % (len(idx), texts[idx[0]])))
+        else:
+            corr.append(("expand-guesses:" + name, True, ""))
     import kernel_tie
     corr.append(kernel_tie.obligation())
     import queue_tie
@@ -119,11 +156,22 @@ def explore(ctx, which):
             "grammar.txt / a terminal file re-weighted, value added or removed, grammar.txt as the real edit_rules.py leaves it), "
             "a re-training look, a plain second session; the oracles run after every step against the files as they are then "
             "(C01 also: base probabilities are lines of grammar.txt, same stream as from a fresh directory, same tables as in a fresh process)")
+    if which == "C02":
+        rule += ("; GUESS LEVEL (harness/guess_level.py): for every run above (histories included: after every step) whose ruleset files define at "
+                 "most %d derivations every popped pre-terminal is expanded by the real create_guesses and the multiset of ALL guesses of the run "
+                 "must equal the derivations of the FILES - per line of <folder>/grammar.txt every line of every variable's file, A<n> x every "
+                 "mask of Capitalization/<n>.txt applied letter by letter with str.upper() (the one all-lower mask under all_lower), M = every "
+                 "listed level x omen_gen.brute_levels of the Omen files (dropped under skip_brute) - one guess per derivation even when two "
+                 "derivations spell the same string; plus %d SMALL rulesets built for that level (gen_caseless_ruleset: Hebrew / Arabic / CJK / "
+                 "Thai / Devanagari and partly cased words beside cased ones, masks with U on letters without case, the all-lower mask absent for "
+                 "about half of the lengths, a duplicate base-structure line in 60%%, a Markov line in 25%%; counted in dist caseless_family_*); "
+                 "the same expansions (pre-terminals with a U mask first, Markov left out) are checked against Expand.v by coqc (expand-guesses:*)"
+                 % (guess_cap, n_fam))
     return {"evaluations": dist["rulesets"], "distinct_nontrivial": nontrivial, "rule": rule, "samples": samples,
             "corr": corr, "violations": vio, "dist": dist}
 
 
-def history_run(ctx, which, rs, flags, sc, dist, steps=None):
+def history_run(ctx, which, rs, flags, sc, dist, steps=None, guess_cap=0):
     """A history on ONE ruleset directory (impl_next.History / HistoryGen): after the first load 1-3 further steps - the same files
     under other flags, an in-place edit that keeps the uuid (a base structure dropped, grammar.txt or a terminal file re-weighted,
     a value added or removed, grammar.txt as the real edit_rules.py leaves it) loaded under flags used before, a re-training
@@ -175,7 +223,7 @@ def history_run(ctx, which, rs, flags, sc, dist, steps=None):
             break
         if capped:
             continue
-        v = oracle(which, g, items, problems, replay)
+        v = oracle(which, g, items, problems, replay, guess_cap, dist)
         for x in v:
             x["what"] = "step %d (%s) of a history on one ruleset directory: %s" % (k, st.get("edit"), x["what"])
         vio += v
@@ -198,7 +246,9 @@ def history_run(ctx, which, rs, flags, sc, dist, steps=None):
     return vio
 
 
-def oracle(which, g, items, problems, replay):
+def oracle(which, g, items, problems, replay, guess_cap=0, dist=None, keep=None):
+    """guess_cap (C02): judge the GUESS level too when the files' language has at most that many derivations (guess_level.py);
+    keep: list that receives the per-pre-terminal expansions (for the Coq expansion model)"""
     vio = []
     if which == "C01":
         for i in range(1, len(items)):
@@ -279,6 +329,14 @@ def oracle(which, g, items, problems, replay):
             sig = "C02:missing" if missing else "C02:repeated"
             vio.append({"sig": sig, "what": "emitted multiset differs from the grid: missing %r, extra/repeated %r"
                         % (missing, extra), "replay": replay})
+        # ... and the property's last clause, at the level of the GUESSES: every popped pre-terminal expanded by the real
+        # create_guesses, all lines of the run as one multiset = the derivations the ruleset FILES define, one guess per derivation
+        if guess_cap and not vio and rs_ is not None:
+            import guess_level
+            v, per = guess_level.oracle(g, items, replay, guess_cap, dist)
+            vio += v
+            if keep is not None and per:
+                keep.append((g, per))
     return vio
 
 
@@ -292,11 +350,11 @@ def replay(ctx, data):
         return []
     sc = common.scratch()
     if inp.get("history"):
-        return history_run(ctx, ctx.prop, None, None, sc, {}, steps=inp["history"])
+        return history_run(ctx, ctx.prop, None, None, sc, {}, steps=inp["history"], guess_cap=REPLAY_GUESS_CAP if ctx.prop == "C02" else 0)
     g = impl_next.load_grammar(inp["ruleset"], sc, inp.get("skip_brute", False), inp.get("skip_case", False),
                                inp.get("folder", "Grammar"))
     try:
         items, problems, capped, q = impl_next.full_stream(g, cap=100000, queue_size=inp.get("queue_size"))
     except Exception as e:
         return [{"sig": "%s:raised:%s" % (ctx.prop, type(e).__name__), "what": "PcfgQueue.next() raised %s: %s" % (type(e).__name__, e), "replay": inp}]
-    return oracle(ctx.prop, g, items, problems, inp)
+    return oracle(ctx.prop, g, items, problems, inp, REPLAY_GUESS_CAP if ctx.prop == "C02" else 0)
